@@ -131,7 +131,7 @@ pub open spec fn name_token(name: Identifier, offset: usize, ts: Seq<Token>) -> 
 
 // ---------- the per-token closures of the declaration walks (R6: lifted, body verbatim)
 //~assume the closures of collect_type_dec / collect_error are applied to every token of the declaration's slice in order (iter().filter_map(); R6); `previous_token_pos` is the position of the last emitted token
-//~not_decided which entries the symbol table holds for a procedure (table/build.rs: HashMap) and the order across global declarations (iterator in the async handler)
+//~not_decided which entries the symbol table holds for a procedure (abstract map view; built in table/build.rs, unit `decls`) and the order across global declarations (iterator in the async handler)
 //@extract lsp4spl/src/features/semantic_tokens.rs :: fn collect_type_dec :: closure |token|
 //@ rewrite range_eq_deref
 //@ lift pub fn collect_type_dec_closure(token: &Token, name_range: &Option<Range<usize>>, text: &str, previous_token_pos: &mut Position) -> (r: Option<SemanticToken>)
